@@ -17,7 +17,7 @@ from vmon.libutil import load_definition, monitored
 LEVEL = "exploration"
 SHARDS = {"quick": 16, "thorough": 16}
 KINDS = ("integer", "float", "enumerated", "boolean", "string", "binary", "abstime", "reltime")
-MUST = ["datasets", "cells.compared", "mode.raw", "mode.derived", "files.multi", "files.truncated_tail_before_next_file", "packets.with_spare_bytes", "kwargs.skip_header_bytes", "kwargs.parse_bad_pkts_false", "definition.form.str-path", "definition.form.Path", "apids.multi", "polymorphic.rejected", "polymorphic.superset", "exotic_encodings.datasets", "reordered_fields.datasets", "manyrows.datasets", "files.form.generator", "files.form.iter", "files.form.tuple"] + [f"cells.{k}" for k in KINDS]
+MUST = ["datasets", "cells.compared", "mode.raw", "mode.derived", "files.multi", "files.truncated_tail_before_next_file", "packets.with_spare_bytes", "kwargs.skip_header_bytes", "kwargs.parse_bad_pkts_false", "definition.form.str-path", "definition.form.Path", "apids.multi", "polymorphic.rejected", "wide_uncalibrated.datasets", "polymorphic.superset", "exotic_encodings.datasets", "reordered_fields.datasets", "manyrows.datasets", "files.form.generator", "files.form.iter", "files.form.tuple"] + [f"cells.{k}" for k in KINDS]
 RULE = ("case = (flat definition: abstract root + one concrete child container per APID, each with a fixed list of "
         "parameters of random kinds/encodings; packet files: 1-3 files (30% of them ending in a truncated packet, which is no "
         "packet of the stream; sometimes with foreign prefix bytes skipped through the skip_header_bytes keyword), the definition as object / str path / Path, the files handed over as path / list / tuple / generator / iterator / map / Path list, 1-4 APIDs interleaved, values at encoding extremes "
@@ -442,6 +442,40 @@ def polymorphic(ctx, scratch):
                 if got != want:
                     ctx.violation(f"exotic-encoding/cells/{encname}", f"cells {got} != values the generator yields {want}", wit)
             ctx.sig("exotic-encoding", encname, width)
+    # ---- wide integers under an encoding that HAS calibrators none of which applies (context calibrators only): the parsed values are
+    #      exact integers beyond 2**53 and must be stored exactly; parameter names with punctuation stay the variables' names ---------
+    never = ir.ContextCal((ir.Comparison("VERSION", "7", "==", False),), ir.Poly(((2.0, 1),)))
+    for width, encname in ((64, "unsigned"), (64, "twosComplement"), (56, "unsigned")):
+        t_w = ir.PType("W_Type", "integer", ir.IntEnc(width, encname, False, None, (never,)))
+        t_p = ir.PType("P_Type", "integer", ir.IntEnc(8, "unsigned"))
+        names = ["HK-TEMP", "HK_TEMP", "VOLT(1)", "W"]
+        rt = ir.Container("CCSDSPacket", tuple(("p", p.name) for p in ps[:7]) + tuple(("p", n_) for n_ in names))
+        params = tuple(ps[:7]) + tuple(ir.Param(n_, "W_Type" if n_ == "W" else "P_Type") for n_ in names)
+        dfn = load_definition(render.render_doc(ir.Doc(tuple(ts[:7]) + (t_w, t_p), params, (rt,))))
+        vals = [(1 << width) - 1, (1 << 53) + 1, (1 << (width - 1)) + 3, (1 << (width - 4)) + 1] if encname == "unsigned" else [-(1 << 63), -(1 << 53) - 1, -3, -(1 << 60) - 1]
+        path = os.path.join(scratch, "wide.bin")
+        with open(path, "wb") as f:
+            for j, v in enumerate(vals):
+                f.write(bytes(P.create_ccsds_packet(bytes([j, 100 + j, 200 + j]) + (v % (1 << width)).to_bytes(width // 8, "big"), apid=13)))
+        for raw_mode in (False, True):
+            st = monitored(xarr.create_dataset, path, dfn, raw_mode)
+            ctx.count("evaluations")
+            ctx.count("wide_uncalibrated.datasets")
+            wit = {"width": width, "encoding": encname, "mode": "raw" if raw_mode else "derived"}
+            if st.exc is not None:
+                ctx.violation(f"wide-uncalibrated/exception/{type(st.exc).__name__}", f"create_dataset raised {st.exc!r}", wit)
+                continue
+            ds = st.value[13]
+            if sorted(ds.data_vars) != sorted([p.name for p in ps[:7]] + names):
+                ctx.violation("variables/names-with-punctuation", f"variables {sorted(ds.data_vars)}, parameters {sorted([p.name for p in ps[:7]] + names)}", wit)
+                continue
+            got = [int(x) for x in ds["W"].values]
+            if got != vals:
+                ctx.violation(f"wide-uncalibrated/cells/{encname}", f"cells {got} != parsed values {vals}", wit)
+            for n_, base in (("HK-TEMP", 0), ("HK_TEMP", 100), ("VOLT(1)", 200)):
+                if [int(x) for x in ds[n_].values] != [base + j for j in range(len(vals))]:
+                    ctx.violation("variables/cells-under-wrong-name", f"variable {n_!r} holds {[int(x) for x in ds[n_].values]}", wit)
+        ctx.sig("wide-uncalibrated", width, encname)
     # ---- the same field SET in a different field ORDER within one APID (two layouts listing the parameters in opposite
     # orders): one field set, so a dataset is due, and every cell belongs to the variable of its own name
     ka = ir.Container("KA", (("p", "A"), ("p", "B")), "CCSDSPacket", (ir.Comparison("SEL", "1"),))
